@@ -51,7 +51,12 @@ def tok_val(v):
     if isinstance(v, float) and v == int(v) and abs(v) < 2 ** 53:
         # SQLite INTEGER affinity / JSON floats that are whole numbers
         return "i%d" % int(v)
-    return "j" + json.dumps(v, sort_keys=True)
+    if isinstance(v, (bytes, bytearray, memoryview)):
+        return "b" + bytes(v).hex()          # a BLOB cell (the model has none: always a difference)
+    try:
+        return "j" + json.dumps(v, sort_keys=True)
+    except (TypeError, ValueError):
+        return "r" + hx(repr(v))
 
 
 def ticks_of(seconds):
